@@ -122,13 +122,15 @@ def check(ctx):
         dids = mm.final_attr(prog, res, "RPE", "delta_ids")
         ctx.require(err is not None and dids is not None,
                     f"RPE[{member}]: error / delta_ids never assigned")
+        raw_dids = dids
         err, dids = devectorise(err), devectorise(dids)
         idps = res.calls(IDP)
         ctx.require(len(idps) == 1, f"RPE[{member}]: id_pairs_from_delta "
                     f"call not found")
         IDPAIRS = idps[0].data["result"]
 
-        coindexing(ctx, res, member, err, dids, IDPAIRS, "C02.2")
+        coindexing(ctx, res, member, err, dids, IDPAIRS, "C02.2",
+                   raw_dids=raw_dids)
         # necessary for every pairing mode: each value depends on *both*
         # components (i and j) of its own id pair
         uses = {0: False, 1: False}
@@ -273,10 +275,37 @@ def _reduction(ctx, rule: str):
     ctx.require(n >= 6, f"{rule}: reduce_to_ids instances not found")
 
 
-def coindexing(ctx, res, member, err, dids, IDPAIRS, rule):
+def coindexing(ctx, res, member, err, dids, IDPAIRS, rule, raw_dids=None):
     """values and pair-end indices stay parallel (shared with C12.4)"""
     # ---------------------------------------------------------- C02.2
     from ..lib import split_comp_ite
+
+    def nd(a: T) -> bool:
+        # an ndarray-valued alternative (not converted back with .tolist())
+        if is_call_to(a, "numpy.array", "numpy.asarray", "numpy.flatnonzero"):
+            return True
+        if a.op == "attr" and a.args[1] == "T":
+            return nd(a.args[0])
+        if a.op == "sub" and a.args[0].op == "attr" and \
+                a.args[0].args[1] == "T" and tm.is_const(a.args[1]):
+            return nd(a.args[0])          # a column of a 2-D array
+        return a.op == "sub" and not tm.is_const(a.args[1]) and nd(a.args[0])
+    raw_alts = tm.strip_ite(raw_dids if raw_dids is not None else dids)
+    arr_alts = [a for a in raw_alts if nd(a)]
+    if arr_alts and len(arr_alts) < len(raw_alts):
+        # evo_rpe builds the companion arrays with `[0] + delta_ids`: with a
+        # list that prepends an index, with an ndarray it adds 0 to every
+        # entry — one entry short, shifted by one pair
+        ctx.ob(rule, res.func, False,
+               f"RPE[{member}]: delta_ids is a list on some paths and a "
+               f"numpy array ({fmt(arr_alts[0])[:70]}) on another: the "
+               f"callers concatenate lists (`[0] + delta_ids`), which adds "
+               f"element-wise for an array — the stored timestamps / "
+               f"distances are one short and shifted",
+               key=f"{rule}:{member}:delta-ids-type")
+    # (a list round trip through numpy keeps entries and order)
+    dids = dids.map(lambda x: tm.method_recv(x) if (
+        is_call_to(x, ".tolist") and not x.args[1]) else None)
     dids = fuse_elems(split_comp_ite(dids))
     sel_e, sel_d = _index_sets(err), _index_sets(dids)
     ok = set(sel_e) == set(sel_d)
